@@ -705,6 +705,36 @@ def r89(ctx, rid="R-8.9"):
         raise AnalysisError(f"{rid}: only {n} file writes found on the per-step path (expected >= 3)")
 
 
+def r812(ctx, rid="R-8.12"):
+    """restart.toml is written only from a re-sorted state. current.active is the slot order; a pick
+    (swap) can leave a displaced path in a slot where its weight is zero until sort_trajstate() has
+    run, and a restart from such a file dies in add_traj. Every call of write_toml() therefore has,
+    on every path from a call that changes the slot order (swap / pick / pick_lock / pick_traj_ens /
+    add_traj) in the same function, a sort_trajstate() in between."""
+    tree = ctx.tree
+    cls = tree.cls(REPEX, "REPEX_state")
+    methods = {x.name: x for x in cls.body if isinstance(x, FUNC)}
+    MOD = ("swap", "pick", "pick_lock", "pick_traj_ens", "add_traj")
+    n = 0
+    for name, f in methods.items():
+        writes = [c for c in walk_local(f) if isinstance(c, ast.Call) and is_self_attr(c.func, "write_toml")]
+        if not writes:
+            continue
+        cfg = cfg_of(f)
+        mods = [c for c in walk_local(f) if isinstance(c, ast.Call) and is_self_attr(c.func) and c.func.attr in MOD]
+        sorts = [cfg.node_of(c) for c in walk_local(f) if isinstance(c, ast.Call) and is_self_attr(c.func, "sort_trajstate")]
+        for w in writes:
+            n += 1
+            wn = cfg.node_of(w)
+            bad = [m for m in mods if cfg.reaches(cfg.node_of(m), wn, avoid=sorts, labels_excluded=("exc",)) and cfg.node_of(m).id != wn.id]
+            if bad:
+                ctx.bad(rid, w, f"REPEX_state.{name} writes restart.toml after `{short(bad[0], 40)}` without a sort_trajstate() in between: the slot order on disk can name a displaced path in an ensemble where its weight is zero, and a restart from that file dies in add_traj (assert valid[ens] != 0)", construct=f"{name}: write_toml after {bad[0].func.attr} without re-sort")
+            else:
+                ctx.ok(rid, w, f"REPEX_state.{name}: restart.toml is written from a re-sorted slot order")
+    if n < 2:
+        raise AnalysisError(f"{rid}: only {n} calls of write_toml found in REPEX_state")
+
+
 def run(ctx):
     ctx.rule("R-8.7", "one ensemble-index unit per store: self.locked entries offset-removed, restart.toml's locked and lock()/swap() indices in state-matrix rows", floor=4)
     ctx.rule("R-8.8", "the commit is final: nothing restart.toml serialises is modified after write_toml within the step", floor=1)
@@ -724,6 +754,8 @@ def run(ctx):
     ctx.attempt(r86, ctx)
     ctx.attempt(r87, ctx)
     ctx.attempt(r89, ctx)
+    ctx.rule("R-8.12", "restart.toml is written only from a re-sorted slot order (no write after a pick / swap / insertion without sort_trajstate in between)", floor=2)
+    ctx.attempt(r812, ctx)
     ctx.rule("R-8.11", "every completed step is committed: each normal path through treat_output writes restart.toml", floor=1)
     from .shared import commit_every_step
     ctx.attempt(commit_every_step, ctx, "R-8.11")
@@ -734,6 +766,7 @@ def run(ctx):
 
 
 VARIANTS = [
+    B("c08-restart-written-after-pick", REPEX, "        for key in [\"moves\", \"trial_len\", \"trial_op\", \"generated\"]:\n            md_items[key] = []\n\n        return md_items", "        for key in [\"moves\", \"trial_len\", \"trial_op\", \"generated\"]:\n            md_items[key] = []\n        if self.toinitiate == -1:\n            self.write_toml()\n\n        return md_items", "R-8.12", control=True, why="seeded C08_i"),
     B("c08-commit-only-when-printing", REPEX, "            self.print_shooted(md_items, pn_news)\n        # save for possible restart\n        self.write_toml()", "            self.print_shooted(md_items, pn_news)\n            # save for possible restart\n            self.write_toml()", "R-8.11", control=True, why="seeded C06_g"),
     B("c08-active-stored-conditionally", REPEX, '        self.config["current"]["active"] = self.live_paths()\n        locked_ep = []', '        if self.locked:\n            self.config["current"]["active"] = self.live_paths()\n        locked_ep = []', "R-8.10", control=True),
     B("c08-data-rows-buffered-handle", REPEX, '    with open(state.data_file, "a") as fp:\n        for pn in pn_archive:', '    fp = state.__dict__.setdefault("_data_fp", open(state.data_file, "a"))\n    if True:\n        for pn in pn_archive:', "R-8.9", control=True, why="seeded C08_d (handle kept open between steps)"),
